@@ -283,7 +283,6 @@ class Parser:
         if self.statement and not self.set_line:
             # a statement that starts on the last line (the previous one was not terminated by ';')
             # has no following line to flush it
-            self.statement = self.statement.rstrip(";")
             self.set_default_flags_in_lexer()
             self.parse_statement()
             self.statement = None
@@ -313,8 +312,10 @@ class Parser:
         self.add_line_to_statement()
 
         if (final_line or self.new_statement) and self.statement:
-            # end of sql operation, remove ; from end of line
-            self.statement = self.statement[:-1]
+            # end of sql operation, remove ; from end of line (a statement that is ended by the start of
+            # the next one has no ; to remove)
+            if self.statement.endswith(";"):
+                self.statement = self.statement[:-1]
         elif last_line and not self.skip:
             # continue combine lines in one massive
             return
@@ -333,6 +334,9 @@ class Parser:
 
     def parse_statement(self) -> None:
         try:
+            if self.statement.endswith(";"):
+                # a one-line statement that started right after an unterminated one still carries its ;
+                self.statement = self.statement[:-1]
             _parse_result = self.yacc.parse(self.statement, lexer=self.lexer)
         except SimpleDDLParserException:
             # unknown symbol reported by the lexer: honour silent mode like p_error does
